@@ -1,13 +1,13 @@
 """C12 configuration for ./check (keys: see checks/propcfg.py)."""
 CFG = {
-    "modules": ["VaxisModel.Props.C12", "VaxisModel.Witness.F112b"],
+    "modules": ["VaxisModel.Props.C12", "VaxisModel.Witness.F112b", "VaxisModel.Witness.F112c"],
     "extractors": ["C07", "C04", "C05", "C03", "C12"],
     "drivers": ["C12"],
     "stateful": True,
     "trivial_prefix": ("-", "bytes="),
     "rule": "end to end on the real code: a Vaxis whose console is the real embedded emulator (term.Model without PTY; bytes -> real "
             "ansi parser -> update(); the emulator's replies are the console input); the same frame histories as C01 "
-            "(bounded-exhaustive two-frame histories on 1x4 + random histories with resizes + scenario lp-semicolon); per frame "
+            "(bounded-exhaustive two-frame histories on 1x4 + random histories with resizes + scenarios lp-semicolon, resize-pen); per frame "
             "(1) emurender/emurefresh: the emulator snapshot against the application's screen and cursor (oracle on the implementation), "
             "(2) emustate: THE COMPOSITION OF THE MODELS - renderer model (renderFrameC) -> wire (Model.C12Compose.opsOfToks) -> emulator "
             "model (runOps) against the real emulator's full state, (3) emudraw: the cells Draw puts into a host Vaxis window; per session "
@@ -45,7 +45,9 @@ CFG = {
                   "stream). The theorems are over the models; the models are tied to the code per frame by the composition stream (full "
                   "emulator state), per start-up by the reply-exchange stream, and by the C01/C05/C03 streams. Sixel graphics behind DA1 "
                   "attribute 4 are outside the emulator model (modelled-not-verified). A resize inside a history restarts the theorem at the "
-                  "new size (the host resizes the emulator first). F02 was repaired in /repo by the C01 builder; the oracle follows.",
+                  "new size (the host resizes the emulator first) - and the emulator does NOT re-establish the start state there: known finding "
+                  "F112c, resize() leaves the pen at the style of the last reflowed primary-screen cell (Witness/F112c over the model, scenario "
+                  "resize-pen on the real code; repair left to the owner of the emulator model). F02 was repaired in /repo by the C01 builder; the oracle follows.",
     "assumptions": ["the host resizes the emulator before the application is told about a new size"],
     "technique": "Lean 4 proof (simulation Spec.Display ~ emulator model per renderer token, induction over frame histories; kernel "
                  "evaluation of the reply exchange with a symbolic emulator state) + correspondence of the composed models with the real code",
